@@ -210,6 +210,11 @@ def main():
                 corpus.append(dict(lines=b['script'], pool=b.get('pool') or 'int', tag='corpus ' + f, vr_eps=b.get('vr_eps')))
         cases = corpus + list(suites.cases(pid, tier, seed))
         fails, stats, kinds, nd, samples = runner.run_cases(cases)
+        for c in cases:
+            if c.get('genfail') and not any(f.get('case') is not None and f['case'].get('genfail') and f['kind'] == 'impl-violation' for f in fails):
+                # inspection raised although the complex passes its well-formedness oracle: a harness problem
+                harness_errors_pre = dict(kind='harness-error', error='case generation failed: ' + c['genfail'])
+                fails.append(harness_errors_pre)
         for f in fails:
             if f['kind'] == 'impl-violation':
                 violations.append(f)
@@ -245,7 +250,7 @@ def main():
         f = violations[0]
         try:
             if not (f['case'] or {}).get('cmp'):
-                orc = (f.get('oracle') or [[0, '']])[0][1].split()[0] if f.get('oracle') else None
+                orc = (f['oracle'][0][1].split()[0], f['oracle'][0][2].split()[:3]) if f.get('oracle') else None
                 f = dict(f, case=runner.shrink(f['case'], 'impl-violation', oracle=orc))
                 ff, _, _, _, _ = runner.process_chunk([f['case']])
                 ff = [x for x in ff if x['kind'] == 'impl-violation']
@@ -259,7 +264,7 @@ def main():
         f = corr[0]
         try:
             if not (f['case'] or {}).get('cmp'):
-                f = dict(f, case=runner.shrink(f['case'], 'correspondence'))
+                f = dict(f, case=runner.shrink(f['case'], 'correspondence', oracle=(f.get('first_difference') or {}).get('op')))
                 ff, _, _, _, _ = runner.process_chunk([f['case']])
                 if ff:
                     f = ff[0]
